@@ -94,11 +94,11 @@ Theorem C11_strReplace_identity :
 Proof. exact replace_id. Qed.
 Print Assumptions C11_strReplace_identity.
 
-(** outside the known class: a digit string whose value is below 2^53 is parsed to exactly that
+(** a digit string whose value is below 2^53 is parsed to exactly that
     integer by the classifier + one-rounding-per-step accumulation *)
 Theorem C11_parse_nat_exact :
   forall base s v, (base = 8 \/ base = 10 \/ base = 16)%N ->
-    known_hex_punct base s = false -> nat_spec base s = Some v -> (v < 2 ^ 53)%N ->
+    nat_spec base s = Some v -> (v < 2 ^ 53)%N ->
     nat_impl base s = PFin v.
 Proof. exact nat_impl_exact. Qed.
 Print Assumptions C11_parse_nat_exact.
@@ -106,15 +106,9 @@ Print Assumptions C11_parse_nat_exact.
 (** ... and every string with a non-digit (or empty) is rejected *)
 Theorem C11_parse_nat_rejects :
   forall base s, (base = 8 \/ base = 10 \/ base = 16)%N ->
-    known_hex_punct base s = false -> nat_spec base s = None -> nat_impl base s = PBad.
+    nat_spec base s = None -> nat_impl base s = PBad.
 Proof. exact nat_impl_bad. Qed.
 Print Assumptions C11_parse_nat_rejects.
-
-(** FINDING: in base 16 the classifier accepts ':' ';' '<' '=' '>' '?' as digits 10..15 *)
-Theorem C11_parse_hex_refuted :
-  exists s, known_hex_punct 16 s = true /\ nat_spec 16 s = None /\ nat_impl 16 s = PFin 10.
-Proof. exact parse_hex_refuted. Qed.
-Print Assumptions C11_parse_hex_refuted.
 
 (** the SPEC classifier accepts exactly [0-7] / [0-9] / [0-9a-fA-F] *)
 Theorem C11_digit_alphabet :
